@@ -12,7 +12,7 @@ From Coq Require Import List Bool Ascii String.
 From UV.Base Require Import Res.
 From UV.Py Require Import PyStr.
 From UV.Schemes Require Import Common Generic LegacyOpenssl Gentoo Debian.
-From UV.Schemes Require Import Rpm Gem Arch Openssl RoundTrips Semver Pypi Maven Nuget Conan RoundTrips2 RoundTrips3 LegacyRoundTrip OpensslRoundTrip SemverRoundTrip NugetRoundTrip DebianRoundTrip RpmRoundTrip.
+From UV.Schemes Require Import Rpm Gem Arch Openssl RoundTrips Semver Pypi Maven Nuget Conan RoundTrips2 RoundTrips3 LegacyRoundTrip OpensslRoundTrip Registry WhitespaceInv SemverRoundTrip NugetRoundTrip DebianRoundTrip RpmRoundTrip.
 From Coq Require Import ZArith.
 Import ListNotations.
 
@@ -168,6 +168,22 @@ Proof.
     apply leg_valid_iff_ctor. exists v. exact R.
 Qed.
 
+(* "surrounding or embedded whitespace and a leading 'v' do not change the version obtained": for every class of the
+   model registry (all 18 names), a text with whitespace inserted anywhere, or with one more leading v or V, constructs
+   exactly what the plain text constructs (the same value or the same error) *)
+Theorem C11_whitespace_and_leading_v_do_not_matter : forall name sch, find_scheme name = Some sch ->
+  (forall a b, ws_variant a b -> v_ctor sch b = v_ctor sch a) /\
+  (forall c a, mem_c c vV = true -> v_ctor sch (c :: a) = v_ctor sch a).
+Proof. exact ctor_ignores_whitespace_and_leading_v. Qed.
+Example C11_whitespace_inhabited :
+  exists sch, find_scheme "DebianVersion"%string = Some sch /\
+    ws_variant (list_ascii_of_string "1:2-3") (list_ascii_of_string " 1:2 -3") /\
+    x_ctor sch (list_ascii_of_string " v1:2 -3") = Ok (list_ascii_of_string "1:2-3", true).
+Proof.
+  eexists. split; [reflexivity|]. split; [|vm_compute; reflexivity].
+  cbn [list_ascii_of_string]. apply wv_ins; [reflexivity|]. repeat (first [apply wv_nil | apply wv_keep | (apply wv_ins; [reflexivity|])]).
+Qed.
+
 Print Assumptions C11_generic.
 Print Assumptions C11_gentoo.
 Print Assumptions C11_alpine.
@@ -186,3 +202,4 @@ Print Assumptions C11_legacy_openssl_roundtrip.
 Print Assumptions C11_openssl_roundtrip.
 Print Assumptions C11_rpm_roundtrip_refuted_without_the_hypothesis.
 Print Assumptions C11_documented_grammar_is_accepted.
+Print Assumptions C11_whitespace_and_leading_v_do_not_matter.
